@@ -131,6 +131,7 @@ class Ctx:
         if site not in s.dec: raise NeedGuard(site)
         v = s.dec[site]
         s.consulted.append(site)
+        if getattr(s.prog, 'log_srctgt', False) and cls == 'G': s.log.append(('S',) + tuple(getattr(s, 'cur_st', (None, None))))
         if getattr(s, 'sem', None) is not None and s.sem.probe: s.sem.emit_probe()
         s.log.append((cls, site, v))
         return v
@@ -490,6 +491,7 @@ class Sem:
         for row in cands:
             if row.evt is None or not s.prog.evt_matches(row.evt, ev): continue
             for ev2, mode in getattr(row, 'gsend', ()): s.submit(ev2, s.pay)
+            s.ctx.cur_st = s.srctgt(m, r, row)
             if row.guard is not None and not s.ctx.guard(row.guard, 'Q' if row.act == 'defer' else 'G'):
                 res |= H_REJECT; continue
             return s.take(m, r, row, ev)
@@ -532,12 +534,25 @@ class Sem:
         """an event submitted while the machine is processing: stored, dispatched after the current step, FIFO"""
         s.c.queue.append((ev, pay_plus1(pay)))
 
+    def srctgt(s, m, r, row):
+        """(source index, target index) of the state objects a guard / action functor of this row is called with; None where the
+        front-ends pass wrapper or machine types (pseudo states, explicit entries, sm-internal rows)"""
+        if r is None: return (None, None)
+        src = row.src if isinstance(row.src, str) else None
+        if isinstance(row, IRow) or not hasattr(row, 'src'): src = s.c.m[m.name]['active'][r]
+        tgt = src if row.tgt is None else (row.tgt if isinstance(row.tgt, str) else None)
+        def ix(n): return None if (n is None or m.states[n].kind not in ('simple', 'sub')) else m.states[n].idx
+        return (ix(src), ix(tgt))
+
     def action(s, row):
         a = row.act
         if a is None: return
-        if isinstance(a, int): s.L('A', a, s.pay)
+        st = getattr(s.ctx, 'cur_st', (None, None))
+        def LS():
+            if getattr(s.prog, 'log_srctgt', False): s.ctx.log.append(('S',) + tuple(st))
+        if isinstance(a, int): LS(); s.L('A', a, s.pay)
         elif isinstance(a, tuple) and a[0] == 'seq':
-            for x in a[1]: s.L('A', x, s.pay)       # ActionSequence_: in written order
+            for x in a[1]: LS(); s.L('A', x, s.pay)       # ActionSequence_: in written order
         elif isinstance(a, tuple) and a[0] == 'send':
             s.L('A', a[1], s.pay)
             for ev2, mode in a[2]: s.submit(ev2, s.pay)
